@@ -113,6 +113,8 @@ Tr_C07_deposit(A, B) ==
 Tr_C07_release(A, B) ==
     \A o \in B.buf.hotFin \ A.buf.hotFin :
         /\ A.obs[o].data = ObsVol(o)
+        (* ... and only when its own workflow has completed *)
+        /\ A.obs[o].planned /\ \A k \in Nodes(o) : A.tasks[<<o, k>>].status = "FINISHED"
         /\ (B.buf.hotFree - A.buf.hotFree) + (B.buf.coldFree - A.buf.coldFree) = ObsVol(o)
 End_C07(X) == X.buf.hotFree = cfg.hotCap /\ X.buf.coldFree = cfg.coldCap
 
@@ -136,6 +138,10 @@ Inv_C08_limits(X) ==
 Tr_C08_status(A, B) ==
     \A o \in ObsNames : ObsRank(A.obs[o].status) <= ObsRank(B.obs[o].status)
                         /\ (A.obs[o].ast # NoneT => B.obs[o].ast = A.obs[o].ast)
+(* an observation is marked finished exactly one duration after it began *)
+Tr_C08_finish(A, B) ==
+    \A o \in ObsNames : (A.obs[o].status # "FINISHED" /\ B.obs[o].status = "FINISHED" /\ ~cfg.api)
+                        => (B.obs[o].ast # NoneT /\ B.now = B.obs[o].ast + OCfg(o).dur * K)
 (* at the beginning of an instant inside the observation exactly the       *)
 (* pipeline's demand of machines holds its ingest tasks; none afterwards   *)
 (* pool-based (label-independent): the ingest pool holds the demand of every *)
@@ -338,7 +344,7 @@ InvHolds(X, n) ==
       [] n = "C15.reported" -> Inv_C15_reported(X)
 TrNames == <<"C01.noreclaim", "C02.boundary", "C03.precedence", "C03.exact", "C04.once",
              "C06.runtime", "C07.deposit", "C07.release", "C08.begin", "C08.status",
-             "C08.ingest", "C08.ontime", "C09.onlyReserved", "C09.exclusive", "C09.size",
+             "C08.ingest", "C08.ontime", "C08.finish", "C09.onlyReserved", "C09.exclusive", "C09.size",
              "C09.released", "C12.rowcount", "C15.flag", "C17.planned",
              "C18.step", "C18.done", "C18.refused">>
 TrHolds(A, B, n) ==
@@ -349,6 +355,7 @@ TrHolds(A, B, n) ==
       [] n = "C07.deposit" -> Tr_C07_deposit(A, B) [] n = "C07.release" -> Tr_C07_release(A, B)
       [] n = "C08.begin" -> Tr_C08_begin(A, B) [] n = "C08.status" -> Tr_C08_status(A, B)
       [] n = "C08.ingest" -> Tr_C08_ingest(A, B) [] n = "C08.ontime" -> Tr_C08_ontime(A, B)
+      [] n = "C08.finish" -> Tr_C08_finish(A, B)
       [] n = "C09.onlyReserved" -> Tr_C09_onlyReserved(A, B) [] n = "C09.exclusive" -> Tr_C09_exclusive(A, B)
       [] n = "C09.size" -> Tr_C09_size(A, B) [] n = "C09.released" -> Tr_C09_released(A, B)
       [] n = "C12.rowcount" -> Tr_C12_rowcount(A, B) [] n = "C15.flag" -> Tr_C15_flag(A, B)
